@@ -159,6 +159,8 @@ func runC06(p *Prog, r *Report) {
 		return
 	}
 	r.Fn(FName(b.copyFn))
+	// ---- R5: the header copy the copy routine relies on gives the copy its own value slices ----
+	checkCopyHeadersHelper(p, r, "C06.R5", true, false)
 	// ---- R1 ----
 	isCopy := func(v ssa.Value) (*ssa.Call, bool) {
 		c, ok := stripConv(v).(*ssa.Call)
@@ -396,6 +398,8 @@ func c06CopyRoutine(p *Prog, r *Report, b *bufInfo) {
 // ---------------- C07 ----------------
 
 func runC07(p *Prog, r *Report) {
+	// R7: the recorder reports the exchange as hijacked (nothing is emitted then) only when the hijack succeeded (shared with C20.R3)
+	r.Borrow(p, c20Wrappers, map[string]string{"C20.R3": "C07.R7"}, func(o Ob) bool { return strings.Contains(o.Construct, "bufferWriter") })
 	b := resolveBuf(p, r, "C07.R0")
 	if b == nil {
 		return
@@ -429,7 +433,24 @@ func runC07(p *Prog, r *Report) {
 	r.Check(okW, "C07.R1", sn+": a new response buffer per attempt", p.InstrPos(b.newW), "NewWriterOnce is called inside the loop iteration", "the response buffer is created once outside the retry loop")
 
 	// relay pieces
-	var relayWH, ioCopy, copyH *ssa.Call
+	var relayWH, ioCopy *ssa.Call
+	var copyH ssa.Instruction
+	isClientHdr := func(v ssa.Value) bool {
+		hc, ok := stripConv(v).(*ssa.Call)
+		if !ok {
+			return false
+		}
+		cc, ok := IsInvoke(hc, "Header")
+		return ok && cc.Value == ssa.Value(b.w)
+	}
+	// an inlined copy loop is accepted when it has the helper's semantics (dst[k] = append(dst[k], vv...))
+	for _, hs := range headerStores(fn, isClientHdr, func(ssa.Value) bool { return true }) {
+		if hs.kind == "merge" {
+			copyH = hs.in
+		} else {
+			r.Fail("C07.R2", sn+": relayed headers are added to the client writer's", p.InstrPos(hs.in), "the relay stores header values into the client writer's header map without appending to what is there ("+hs.kind+"): headers set on the writer by an outer middleware are overwritten / value slices are shared with the recorder")
+		}
+	}
 	for _, c := range Calls(fn) {
 		call, ok := c.(*ssa.Call)
 		if !ok {
@@ -441,12 +462,8 @@ func runC07(p *Prog, r *Report) {
 		if ccIs(call.Common(), "io", "Copy") && stripConv(call.Common().Args[0]) == ssa.Value(b.w) {
 			ioCopy = call
 		}
-		if f := call.Common().StaticCallee(); f != nil && f.Name() == "CopyHeaders" {
-			if hc, ok := stripConv(call.Common().Args[0]).(*ssa.Call); ok {
-				if cc, ok := IsInvoke(hc, "Header"); ok && cc.Value == ssa.Value(b.w) {
-					copyH = call
-				}
-			}
+		if f := call.Common().StaticCallee(); f != nil && f.Name() == "CopyHeaders" && isClientHdr(call.Common().Args[0]) {
+			copyH = call
 		}
 	}
 	if relayWH == nil || ioCopy == nil || copyH == nil {
@@ -552,6 +569,17 @@ func runC07(p *Prog, r *Report) {
 			if isEmission(in) && Reach(fn, in, nil, nil)[b.handler] {
 				afterEm = true
 			}
+		}
+	}
+	// the client writer's header map is only touched once the attempt is final
+	for _, c := range Calls(fn) {
+		call, ok := c.(*ssa.Call)
+		if !ok {
+			continue
+		}
+		if cc, ok := IsInvoke(call, "Header"); ok && cc.Value == ssa.Value(b.w) {
+			r.Check(!Reach(fn, call, nil, nil)[b.handler], "C07.R2", sn+": client headers touched only when the attempt is final", p.InstrPos(call),
+				"no further attempt is reachable after the client writer's Header() is obtained", "another attempt can follow after the client writer's header map was obtained (and filled): headers of a discarded attempt reach the client")
 		}
 	}
 	r.Check(!afterEm, "C07.R2", sn+": no attempt after the response was emitted", p.InstrPos(b.handler), "the handler is unreachable from every emission", "the wrapped handler can be invoked after a response was already sent to the client")
@@ -1338,4 +1366,173 @@ func mutantsC15() []Mutant {
 		{Name: "writeerror-not-recorded", File: f, Old: "\t\tb.writeError = err\n", New: "", Expect: "C15.R2"},
 		{Name: "size-handler-500", File: f, Old: "\t\tw.WriteHeader(http.StatusRequestEntityTooLarge)", New: "\t\tw.WriteHeader(http.StatusInternalServerError)", Expect: "C15.R1"},
 	}
+}
+
+// ---------------- header copies (shared by C06, C07, C20) ----------------
+
+// hdrStore classifies one `dst[k] = v` of a header-copy loop.
+type hdrStore struct {
+	in   *ssa.MapUpdate
+	kind string // "merge": append(dst[k], src...); "fresh": a new slice; "alias": the source's own slice (or a slice of it); "other"
+}
+
+// derivesFromRange: v is (a slice of / phi over) the value variable of a range over a map/slice satisfying isSrc.
+func derivesFromRange(v ssa.Value, isSrc func(ssa.Value) bool, d int) bool {
+	if d > 6 {
+		return false
+	}
+	switch x := stripConv(v).(type) {
+	case *ssa.Extract:
+		if nx, ok := x.Tuple.(*ssa.Next); ok {
+			if rg, ok := nx.Iter.(*ssa.Range); ok {
+				return isSrc(stripConv(rg.X))
+			}
+		}
+	case *ssa.Slice:
+		return derivesFromRange(x.X, isSrc, d+1)
+	case *ssa.Lookup:
+		return isSrc(stripConv(x.X))
+	case *ssa.Phi:
+		for _, e := range x.Edges {
+			if derivesFromRange(e, isSrc, d+1) {
+				return true
+			}
+		}
+	case *ssa.Call:
+		if b, ok := x.Common().Value.(*ssa.Builtin); ok && b.Name() == "append" {
+			return derivesFromRange(x.Common().Args[0], isSrc, d+1)
+		}
+	}
+	return false
+}
+
+// headerStores lists and classifies the map updates of fn on a map satisfying isDst, given the copy's source.
+func headerStores(fn *ssa.Function, isDst, isSrc func(ssa.Value) bool) []hdrStore {
+	var out []hdrStore
+	for _, b := range fn.Blocks {
+		for _, in := range b.Instrs {
+			mu, ok := in.(*ssa.MapUpdate)
+			if !ok || !isDst(stripConv(mu.Map)) {
+				continue
+			}
+			hs := hdrStore{in: mu, kind: "other"}
+			v := stripConv(mu.Value)
+			switch {
+			case derivesFromRange(v, isSrc, 0):
+				hs.kind = "alias"
+			default:
+				if c, ok := v.(*ssa.Call); ok {
+					if bi, ok := c.Common().Value.(*ssa.Builtin); ok && bi.Name() == "append" {
+						first := stripConv(c.Common().Args[0])
+						if lk, ok := first.(*ssa.Lookup); ok && isDst(stripConv(lk.X)) && lk.Index == mu.Key {
+							hs.kind = "merge"
+						} else if isNilConst(first) {
+							hs.kind = "fresh"
+						} else if _, ok := first.(*ssa.MakeSlice); ok {
+							hs.kind = "fresh"
+						}
+					}
+				}
+				if _, ok := v.(*ssa.MakeSlice); ok {
+					hs.kind = "fresh"
+				}
+			}
+			out = append(out, hs)
+		}
+	}
+	return out
+}
+
+// copyHeadersHelper analyses utils.CopyHeaders(dst, src): returns its stores into dst.
+func copyHeadersHelper(p *Prog) (*ssa.Function, []hdrStore) {
+	fn := p.Func("utils", "CopyHeaders")
+	if fn == nil || len(fn.Params) != 2 {
+		return nil, nil
+	}
+	isDst := func(v ssa.Value) bool { return v == ssa.Value(fn.Params[0]) }
+	isSrc := func(v ssa.Value) bool { return v == ssa.Value(fn.Params[1]) }
+	return fn, headerStores(fn, isDst, isSrc)
+}
+
+// checkCopyHeadersHelper: utils.CopyHeaders adds every value of every source header to the destination
+// (dst[k] = append(dst[k], vv...) in a full range over src): it neither shares the source's value slices
+// with the destination nor drops what the destination already holds.
+func checkCopyHeadersHelper(p *Prog, r *Report, rule string, wantNoAlias, wantMerge bool) {
+	fn, sts := copyHeadersHelper(p)
+	if fn == nil {
+		r.Anchor(rule, "utils.CopyHeaders", "function not found")
+		return
+	}
+	r.Fn(FName(fn))
+	if len(sts) == 0 {
+		r.Fail(rule, "utils.CopyHeaders: stores into the destination", p.FuncPos(fn), "the helper stores nothing into its destination header map")
+		return
+	}
+	for i, s := range sts {
+		what := fmt.Sprintf("utils.CopyHeaders: store #%d into the destination", i+1)
+		if wantNoAlias {
+			r.Check(s.kind == "merge" || s.kind == "fresh", rule, what+" copies the values", p.InstrPos(s.in), "the stored slice is built by append onto the destination's own slice (or a new one)",
+				"the destination receives "+map[string]string{"alias": "the source's own value slice", "other": "a slice of unknown origin"}[s.kind]+": both header maps share one backing array, so an in-place edit through one is seen through the other (earlier attempts / the handler can alter the original request's headers)")
+		}
+		if wantMerge {
+			r.Check(s.kind == "merge", rule, what+" adds to what is there", p.InstrPos(s.in), "dst[k] = append(dst[k], values...)", "the destination's existing values for the key are replaced (kind: "+s.kind+"): headers already set on the writer by an outer middleware are lost")
+		}
+		ok, why := fullRangeLoopOver(s.in, fn.Params[1])
+		r.Check(ok, rule, what+" for every source header", p.InstrPos(s.in), "inside a range over the whole source map, left only when exhausted", why)
+	}
+}
+
+// fullRangeLoopOver: instruction `in` sits in the body of a `range src` loop that is only left when the
+// iterator is exhausted, and is executed on every iteration path (no continue/skip around it) unless
+// that path itself stores into the same map.
+func fullRangeLoopOver(in ssa.Instruction, src ssa.Value) (bool, string) {
+	fn := in.Parent()
+	var rng *ssa.Range
+	for _, b := range fn.Blocks {
+		for _, x := range b.Instrs {
+			if rg, ok := x.(*ssa.Range); ok && stripConv(rg.X) == src {
+				rng = rg
+			}
+		}
+	}
+	if rng == nil {
+		return false, "not inside a range over the source"
+	}
+	var next *ssa.Next
+	for _, ref := range *rng.Referrers() {
+		if n, ok := ref.(*ssa.Next); ok {
+			next = n
+		}
+	}
+	if next == nil {
+		return false, "range without iteration"
+	}
+	// every path from one Next back to the Next (one iteration) passes a store into the destination map
+	mu := in.(*ssa.MapUpdate)
+	isStore := func(x ssa.Instruction) bool {
+		m, ok := x.(*ssa.MapUpdate)
+		return ok && stripConv(m.Map) == stripConv(mu.Map)
+	}
+	// the body edge is the false edge of `if ok-of-next` ... find the If on the Next's ok
+	var body Edge
+	found := false
+	for _, t := range BoolTests(fn, func(v ssa.Value) bool {
+		e, ok := v.(*ssa.Extract)
+		return ok && e.Tuple == ssa.Value(next) && e.Index == 0
+	}) {
+		body, found = t.True, true
+	}
+	if !found {
+		return false, "loop test on the iterator not found"
+	}
+	if ReachableAvoiding(fn, body.To().Instrs[0], next, isStore, nil) && !isStore(body.To().Instrs[0]) {
+		return false, "an iteration can skip the store (some source headers are not copied)"
+	}
+	// the loop is left only through the exhausted edge: no return / break inside the body
+	for x := range Reach(fn, body.To().Instrs[0], func(y ssa.Instruction) bool { return y == ssa.Instruction(next) }, nil) {
+		if _, ok := x.(*ssa.Return); ok {
+			return false, "the loop can be left before the source is exhausted"
+		}
+	}
+	return true, ""
 }
